@@ -46,7 +46,7 @@ IO_ON = {
 }
 
 
-def vary_tap_settings(cfg: Dict, rng: random.Random) -> None:
+def vary_tap_settings(cfg: Dict, rng: random.Random, mode_rng: Optional[random.Random] = None) -> None:
     """Generated kill-chain options for the TAP001 / TAP003 threat-actor agents of the shipped UC7 scenarios (the
     topology and everything else stay as shipped): schedule, repeat flags, per-stage probabilities, scan settings."""
     exhaust = rng.random() < 0.34  # TAP001: a scan campaign that runs out of networks and has to choose again
@@ -55,6 +55,17 @@ def vary_tap_settings(cfg: Dict, rng: random.Random) -> None:
         if not t.startswith("tap"):
             continue
         s = a["agent_settings"]
+        if mode_rng is not None and t == "tap-001" and mode_rng.random() < 0.3:
+            # a short scan campaign (the target subnet first), so the later stages - command and control, payload - are
+            # reached well inside a run and defender interference can land in them
+            s.update({"frequency": mode_rng.choice([2, 3]), "variance": 0, "start_step": 1, "repeat_kill_chain": mode_rng.random() < 0.3, "repeat_kill_chain_stages": mode_rng.random() < 0.5})
+            for stage, opts in (s.get("kill_chain") or {}).items():
+                if isinstance(opts, dict) and "probability" in opts:
+                    opts["probability"] = 1
+            prop = s["kill_chain"]["PROPAGATE"]
+            prop.update({"network_addresses": [n for n in prop["network_addresses"] if n.startswith("192.168.220.")]})
+            s["kill_chain"]["PAYLOAD"]["continue_on_failed_exfil"] = mode_rng.random() < 0.5
+            continue
         if exhaust and t == "tap-001":
             s.update({"frequency": 2, "variance": 0, "start_step": 1, "repeat_kill_chain": False, "repeat_kill_chain_stages": True})
             for stage, opts in (s.get("kill_chain") or {}).items():
@@ -102,7 +113,7 @@ def load_shipped(name: str, max_episode_length: Optional[int] = None, seed: Opti
     if seed is not None:
         cfg["game"]["seed"] = seed
     if tap_variation is not None:
-        vary_tap_settings(cfg, random.Random(tap_variation))
+        vary_tap_settings(cfg, random.Random(tap_variation), mode_rng=random.Random(tap_variation * 7919 + 13))
     return cfg
 
 
